@@ -240,7 +240,7 @@ package k8s
 
 // podsAllDS(i): every pod recorded for this node info is DaemonSet-owned
 //@ spec podsAllDS(i *NodeInfo) bool = forall j :: 0 <= j && j < len(i.pods) ==> i.pods[j] != nil && isDS(i.pods[j])
-//@ spec infoPodsOK(i *NodeInfo) bool = forall j :: 0 <= j && j < len(i.pods) ==> i.pods[j] != nil
+//@ opaque spec infoPodsOK(i *NodeInfo) bool = forall j :: 0 <= j && j < len(i.pods) ==> i.pods[j] != nil
 // nodeEmptyIn(n, m): the map has an entry for the node and all its pods are DaemonSet pods
 //@ opaque spec nodeEmptyIn(n *v1.Node, m map[string]*NodeInfo) bool = has(m, n.Name) && m[n.Name] != nil && podsAllDS(m[n.Name])
 // infoMapOK(m): entries are non-nil and list non-nil pods
@@ -292,13 +292,61 @@ package k8s
 //@ assume func (*k8s.io/api/core/v1.ResourceList).Memory(rl) (q)
 //@   ensures q != nil && fresh(q) && deref(q) == rlMem(deref(rl))
 
-// CreateNodeNameToInfoMap: (contract assumed for now; see DESIGN.md) every listed node has an entry
-// holding that node and all listed pods scheduled on it; entries are well-formed and have a node.
+// NodeInfo primitives (the RWMutex calls are effect-free)
+//@ func NewNodeInfo() (r)
+//@   ensures r != nil && fresh(r) && r.node == nil && len(r.pods) == 0 && cap(r.pods) == 0 && base(r.pods) == nil
+//@ func (*NodeInfo).AddPod(i, pod)
+//@   requires i != nil
+//@   modifies i.pods, spare(i.pods)
+//@   ensures len(i.pods) == old(len(i.pods)) + 1 && i.pods[old(len(i.pods))] == pod
+//@   ensures forall j :: 0 <= j && j < old(len(i.pods)) ==> i.pods[j] == old(i.pods[j])
+// (the same fact, found from a known element of the old list)
+//@   ensures forall j {elemref(old(i.pods), j)} :: 0 <= j && j < old(len(i.pods)) ==> i.pods[j] == old(i.pods[j])
+//@   ensures base(i.pods) == old(base(i.pods)) || fresh(base(i.pods))
+//@ func (*NodeInfo).SetNode(i, node)
+//@   requires i != nil
+//@   modifies i.node
+//@   ensures i.node == node
+
+// CreateNodeNameToInfoMap: every listed node has an entry holding a node and all listed pods scheduled
+// on it; entries are well-formed; entries without a node (pods of unlisted nodes) are dropped.
 //@ spec infoHasNode(m map[string]*NodeInfo) bool = forall s string :: has(m, s) ==> m[s] != nil && m[s].node != nil
-//@ assume func CreateNodeNameToInfoMap(pods, nodes) (m)
+// every entry is an object of its own, made here, with a pod list of its own
+//@ spec infoOwn(m map[string]*NodeInfo) bool = forall s string :: has(m, s) ==> m[s] != nil && fresh(m[s]) && birth(m[s]) < now && (base(m[s].pods) == nil || fresh(base(m[s].pods))) && birth(base(m[s].pods)) < now
+//@ spec infoSep(m map[string]*NodeInfo) bool = forall s string, t string :: has(m, s) && has(m, t) && s != t ==> m[s] != m[t] && (base(m[s].pods) == nil || base(m[s].pods) != base(m[t].pods))
+//@ spec podIn(p *v1.Pod, i *NodeInfo) bool = exists q :: 0 <= q && q < len(i.pods) && i.pods[q] == p
+//@ spec strIn(x string, l []string) bool = exists q :: 0 <= q && q < len(l) && l[q] == x
+//@ func CreateNodeNameToInfoMap(pods, nodes) (m)
+//@   requires podsOK(pods) && (forall i :: 0 <= i && i < len(nodes) ==> nodes[i] != nil)
 //@   ensures m != nil && fresh(m) && infoMapOK(m) && infoHasNode(m)
 //@   ensures forall i :: 0 <= i && i < len(nodes) ==> has(m, nodes[i].Name)
-//@   ensures forall i, j :: 0 <= i && i < len(nodes) && 0 <= j && j < len(pods) && pods[j].Spec.NodeName == nodes[i].Name ==> (exists p :: 0 <= p && p < len(m[nodes[i].Name].pods) && m[nodes[i].Name].pods[p] == pods[j])
+//@   ensures forall i, j :: 0 <= i && i < len(nodes) && 0 <= j && j < len(pods) && pods[j].Spec.NodeName == nodes[i].Name ==> podIn(pods[j], m[nodes[i].Name])
+//@ loop #0
+//@   modifies mapof(nodeNameToNodeInfo)
+//@   invariant forall s string :: has(nodeNameToNodeInfo, s) ==> birth(nodeNameToNodeInfo[s]) >= entry(now) && (base(nodeNameToNodeInfo[s].pods) == nil || birth(base(nodeNameToNodeInfo[s].pods)) >= entry(now))
+//@   invariant infoOwn(nodeNameToNodeInfo)
+//@   invariant infoMapOK(nodeNameToNodeInfo)
+//@   invariant infoSep(nodeNameToNodeInfo)
+//@   invariant forall s string :: has(nodeNameToNodeInfo, s) ==> nodeNameToNodeInfo[s].node == nil
+//@   invariant forall j :: 0 <= j && j < #i ==> has(nodeNameToNodeInfo, pods[j].Spec.NodeName) && podIn(pods[j], nodeNameToNodeInfo[pods[j].Spec.NodeName])
+//@ loop #1
+//@   modifies mapof(nodeNameToNodeInfo), mapvals(nodeNameToNodeInfo)
+//@   invariant forall s string :: has(nodeNameToNodeInfo, s) ==> birth(nodeNameToNodeInfo[s]) >= entry(now) || (entry(has(nodeNameToNodeInfo, s)) && entry(nodeNameToNodeInfo[s]) == nodeNameToNodeInfo[s])
+//@   invariant infoOwn(nodeNameToNodeInfo)
+//@   invariant infoMapOK(nodeNameToNodeInfo)
+//@   invariant infoSep(nodeNameToNodeInfo)
+//@   invariant forall j :: 0 <= j && j < len(pods) ==> has(nodeNameToNodeInfo, pods[j].Spec.NodeName) && podIn(pods[j], nodeNameToNodeInfo[pods[j].Spec.NodeName])
+//@   invariant forall i :: 0 <= i && i < #i ==> has(nodeNameToNodeInfo, nodes[i].Name) && nodeNameToNodeInfo[nodes[i].Name].node != nil
+//@ loop #2
+//@   invariant cap(keysToRemove) == 0 || birth(base(keysToRemove)) >= entry(now)
+//@   invariant forall s string :: #seen[s] && has(nodeNameToNodeInfo, s) && nodeNameToNodeInfo[s].node == nil ==> strIn(s, keysToRemove)
+//@   invariant forall q :: 0 <= q && q < len(keysToRemove) ==> has(nodeNameToNodeInfo, keysToRemove[q]) && nodeNameToNodeInfo[keysToRemove[q]].node == nil
+//@ loop #3
+//@   modifies mapof(nodeNameToNodeInfo)
+//@   invariant infoMapOK(nodeNameToNodeInfo)
+//@   invariant forall s string :: has(nodeNameToNodeInfo, s) && nodeNameToNodeInfo[s].node == nil ==> (exists q :: #i <= q && q < len(keysToRemove) && keysToRemove[q] == s)
+//@   invariant forall i :: 0 <= i && i < len(nodes) ==> has(nodeNameToNodeInfo, nodes[i].Name) && nodeNameToNodeInfo[nodes[i].Name].node != nil
+//@   invariant forall i, j :: 0 <= i && i < len(nodes) && 0 <= j && j < len(pods) && pods[j].Spec.NodeName == nodes[i].Name ==> podIn(pods[j], nodeNameToNodeInfo[nodes[i].Name])
 
 //@ import scheduler "github.com/atlassian/escalator/pkg/k8s/scheduler"
 //@ spec podsOK(s []*v1.Pod) bool = forall i :: 0 <= i && i < len(s) ==> s[i] != nil
